@@ -399,21 +399,27 @@ Qed.
 Lemma solve_inv (net : netlist K) sched T : solve net sched = Ok T ->
   NoDup (conn_ends (conns net)) /\
   solve_sched (conns net) (map lst_of_comp (comps net)) sched = Ok [T] /\
-  (forall p, In p (l_pins T) -> partner (conns net) p = None).
+  (forall p, In p (l_pins T) -> partner (conns net) p = None) /\
+  NoDup (allpins (map lst_of_comp (comps net))) /\
+  (forall p, In p (conn_ends (conns net)) -> In p (allpins (map lst_of_comp (comps net)))).
 Proof.
   unfold solve. destruct (nodupb (conn_ends (conns net))) eqn:E0; simpl; [|discriminate].
+  destruct (nodupb (allpins (map lst_of_comp (comps net)))) eqn:E00; simpl; [|discriminate].
+  destruct (forallb _ (conn_ends (conns net))) eqn:E01; simpl; [|discriminate].
   intros H. apply bind_ok in H. destruct H as (live & Hl & H).
   destruct live as [|T' [|? ?]]; try discriminate.
   destruct (forallb _ (l_pins T')) eqn:E; [|discriminate]. injection H as <-.
-  split; [apply nodupb_ok; exact E0|]. split; [exact Hl|].
-  intros p Hp. rewrite forallb_forall in E. specialize (E p Hp).
-  destruct (partner (conns net) p); [discriminate|reflexivity].
+  split; [apply nodupb_ok; exact E0|]. split; [exact Hl|]. split; [|split].
+  - intros p Hp. rewrite forallb_forall in E. specialize (E p Hp).
+    destruct (partner (conns net) p); [discriminate|reflexivity].
+  - apply nodupb_ok. exact E00.
+  - intros p Hp. rewrite forallb_forall in E01. apply mem_In. apply E01. exact Hp.
 Qed.
 
 (* THE property: whatever the schedule, a returned result reports the network's solution *)
 Theorem solve_sound (net : netlist K) sched T : solve net sched = Ok T -> reports net T.
 Proof.
-  intros H. apply solve_inv in H. destruct H as (_ & Hs & Hfree).
+  intros H. apply solve_inv in H. destruct H as (_ & Hs & Hfree & _ & _).
   intros u a b (E1 & E2 & E3).
   assert (HT : Sem T a b).
   { eapply (solve_sched_sound _ _ _ _ a b Hs E2); [|left; reflexivity].
